@@ -44,6 +44,9 @@ def run(prog, rep):
     ma = cbm.methods.get('merge_adm')
     um = cbm.methods.get('unmerge_adm')
     und = cbm.methods.get('_update_node_delegations')
+    if ma is not None:
+        # private methods split off merge_adm are read as part of it (the per-node delegation update stays a call)
+        ma = inline(prog, cbm, ma, exclude=('_update_node_delegations',), depth=4)
     if not all((ma, um, und)):
         raise AnalysisError('merge_adm / unmerge_adm / _update_node_delegations vanished')
     src_param = [a.arg for a in ma.args.kwonlyargs + ma.args.args if a.arg != 'self'][0]
@@ -64,7 +67,7 @@ def run(prog, rep):
             if isinstance(n, ast.Assign) and isinstance(n.targets[0], ast.Name) and n.targets[0].id not in temp_vars:
                 names = {x.id for x in ast.walk(n.value) if isinstance(x, ast.Name)}
                 is_clone = any(isinstance(c, ast.Call) and call_name(c) == 'clone_graph' for c in ast.walk(n.value))
-                if is_clone or (names & temp_vars and isinstance(n.value, ast.Call)):
+                if is_clone or (names & temp_vars and isinstance(n.value, ast.Call)) or (isinstance(n.value, ast.Name) and n.value.id in temp_vars):
                     temp_vars.add(n.targets[0].id)
                     changed = True
     for c in walk_no_nested(ma):
